@@ -228,23 +228,32 @@ func main() {
 			}
 			// unwind: with a 2-block cache, remove tips down to the finalized height; the cached tip must
 			// always be the block the height index names
-			ucfg := cfg
-			ucfg.MaxBlockCache = 2
-			if un, err := node.BuildPath(ucfg, path); err == nil {
-				for un.Tip() != nil && un.Tip().Header.Height > ucfg.GenesisHeight {
-					tip := un.Tip()
-					if err := un.Exec.VerifDeleteBlock(tip, false); err != nil {
-						break // refused at the finalized height
-					}
-					r.Add("transitions", 1)
-					r.Add("unwind_deletes", 1)
-					want, err := un.Chain.DataAccess().GetBlockHeaderByHeight(tip.Header.Height - 1)
-					if un.Tip() == nil || err != nil || !bytes.Equal(un.Tip().Header.ID, want.ID) {
-						r.Violation("unwind-cached-tip-lost", fmt.Sprintf("after removing %d-th block of path %v with a 2-block cache the cached tip is missing or wrong", tip.Header.Height, path), caseT{path, -1, false, "unwind", keep})
-						break
+			for _, gh := range []uint32{0, 100} { // also a chain whose genesis block is not at height 0
+				ucfg := cfg
+				ucfg.MaxBlockCache = 2
+				ucfg.GenesisHeight = gh
+				un, err := node.BuildPath(ucfg, path)
+				if err != nil && gh != 0 && len(path) <= 2 {
+					if _, e0 := node.New(ucfg); e0 != nil {
+						r.Violation("cache-refill-ignores-genesis-height", fmt.Sprintf("a node whose genesis block is at height %d cannot load its tip into the block cache: %v", gh, e0), caseT{path, -1, false, "unwind", keep})
 					}
 				}
-				un.Close()
+				if err == nil {
+					for un.Tip() != nil && un.Tip().Header.Height > ucfg.GenesisHeight {
+						tip := un.Tip()
+						if err := un.Exec.VerifDeleteBlock(tip, false); err != nil {
+							break // refused at the finalized height
+						}
+						r.Add("transitions", 1)
+						r.Add("unwind_deletes", 1)
+						want, err := un.Chain.DataAccess().GetBlockHeaderByHeight(tip.Header.Height - 1)
+						if un.Tip() == nil || err != nil || !bytes.Equal(un.Tip().Header.ID, want.ID) {
+							r.Violation("unwind-cached-tip-lost", fmt.Sprintf("after removing %d-th block of path %v with a 2-block cache the cached tip is missing or wrong", tip.Header.Height, path), caseT{path, -1, false, "unwind", keep})
+							break
+						}
+					}
+					un.Close()
+				}
 			}
 			// idempotence: three apply/delete rounds of the same block
 			n.Close()
